@@ -98,6 +98,14 @@ pub struct Case {
     /// shutdown after a recovery leaves already flushed WAL files behind)
     #[serde(default)]
     pub stop_after_first_recovery: bool,
+    /// skip compaction rounds in every lifetime that follows a crash recovery (narrow form of the same open class)
+    #[serde(default)]
+    pub no_compaction_after_recovery: bool,
+    /// same open class, narrowest form: once a crash recovery has happened, aggregates are not compared with the
+    /// selection any more (recovered WAL entries are replayed on top of their segments and counted twice);
+    /// loss, corruption, duplicates in selections and REPLAY stay checked
+    #[serde(default)]
+    pub no_count_after_recovery: bool,
 }
 
 #[derive(Clone, Copy, PartialEq, Debug)]
@@ -166,6 +174,9 @@ pub struct Classes {
     pub excl_store_after_restart: bool,
     /// WAL steps race with an in-flight flush (a WAL rotation coincides with a memtable rotation)
     pub excl_wal_steps: bool,
+    /// second exploration: idle SIGKILLs only (no armed step), histories continue through any number of crash
+    /// recoveries; while the post-recovery class is open: no compaction after a recovery, no COUNT oracle after one
+    pub idle_only: bool,
 }
 
 pub fn case_strategy(tier: Tier, cl: Classes, max_shards: usize) -> BoxedStrategy<Case> {
@@ -206,6 +217,7 @@ pub fn case_strategy(tier: Tier, cl: Classes, max_shards: usize) -> BoxedStrateg
             };
             let ev = simple_ev(n_types, n_ctx);
             let steps = steps.clone();
+            let idle_only = cl.idle_only;
             let op = prop_oneof![
                 40 => ev.prop_map(COp::Store),
                 10 => Just(COp::Sync),
@@ -214,11 +226,11 @@ pub fn case_strategy(tier: Tier, cl: Classes, max_shards: usize) -> BoxedStrateg
                 3 => (1u8..=2).prop_map(COp::Compact),
                 2 => Just(if cl.excl_id_drift { COp::Sync } else { COp::Restart }),
                 3 => any::<bool>().prop_map(|synced| COp::Kill { synced }),
-                4 => (prop::sample::select(steps.clone()), 1u8..=3).prop_map(|(step, nth)| COp::Arm { step, nth }),
+                4 => (prop::sample::select(steps.clone()), 1u8..=3).prop_map(move |(step, nth)| if idle_only { COp::Kill { synced: step % 2 == 0 } } else { COp::Arm { step, nth } }),
             ];
             (Just(cfg), Just(n_types), Just(n_ctx), prop::collection::vec(op, 8..=tier.pick(45, 80)))
         })
-        .prop_map(move |(cfg, n_types, n_ctx, ops)| Case { cfg, types: simple_types()[..n_types].to_vec(), n_ctx, ops, quiesce_before_kill: cl.excl_flush_steps, no_store_after_compaction_restart: cl.excl_compact_restart, no_store_after_restart: cl.excl_store_after_restart, stop_after_first_recovery: cl.excl_store_after_restart })
+        .prop_map(move |(cfg, n_types, n_ctx, ops)| Case { cfg, types: simple_types()[..n_types].to_vec(), n_ctx, ops, quiesce_before_kill: cl.excl_flush_steps, no_store_after_compaction_restart: cl.excl_compact_restart, no_store_after_restart: cl.excl_store_after_restart && !cl.idle_only, stop_after_first_recovery: cl.excl_store_after_restart && !cl.idle_only, no_compaction_after_recovery: cl.excl_store_after_restart && cl.idle_only, no_count_after_recovery: cl.excl_store_after_restart && cl.idle_only })
         .boxed()
 }
 
@@ -370,7 +382,8 @@ pub fn observe(run: &mut Run, c: &Case, what: &str, weak_prefix: bool) -> Result
         let qc = format!("QUERY {} COUNT", t.name);
         let rc = run.w.db.cmd(&qc)?;
         let cnt = if rc.streamed { rc.rows.first().and_then(|r| r.first()).and_then(|v| v.as_i64()).unwrap_or(0) } else { 0 };
-        if cnt != set.len() as i64 {
+        let count_excluded = c.no_count_after_recovery && !run.crashes.is_empty();
+        if cnt != set.len() as i64 && !count_excluded {
             return Ok(Some(("count-differs-from-selection".into(), json!({"at": what, "cmd": qc, "count": cnt, "selection": set.len(), "rows": set, "crashes": run.crashes, "log": log(run)}))));
         }
         got_all.extend(set);
@@ -477,6 +490,10 @@ pub fn run_history(c: &Case, rep: &mut CaseReport, tag: &str, monitor: bool) -> 
                 }
                 COp::Barrier => run.w.apply(&Op::Barrier)?,
                 COp::Compact(n) => {
+                    if c.no_compaction_after_recovery && !run.crashes.is_empty() {
+                        rep.excluded_known += 1;
+                        return Ok(());
+                    }
                     run.had_compaction = true;
                     run.compaction_lifetime = run.lifetimes;
                     run.w.apply(&Op::Compact(*n))?;
@@ -640,6 +657,7 @@ pub fn classes(ctx: &Ctx) -> Classes {
         excl_compact_restart: ctx.open_any("crash.store_after_compaction_and_restart"),
         excl_store_after_restart: ctx.open_any("crash.store_after_crash_recovery"),
         excl_wal_steps: false,
+        idle_only: false,
     }
 }
 
@@ -648,7 +666,7 @@ pub fn run(ctx: &Ctx) -> i32 {
     let mut report = Report::new(
         "C01",
         "fault_enumeration",
-        "generated (config incl. WAL buffering, 1-2 types, 2-4 contexts, 8-80 ops of STORE / sync / FLUSH / barrier / compaction / clean restart / SIGKILL / armed crash point at a named step of WAL, rotation, flush, index save, WAL cleanup, compaction, hand-over, reclaim); after every crash a new process on the same directories must return every MUST event (acknowledged, visible to a read, WAL drained) exactly once with its payload, COUNT must equal the selection, MAY events at most once; every history ends with an idle SIGKILL and a clean restart. Non-trivial: a MUST event exists and the crash was at a step boundary or followed a rotation / flush / compaction.",
+        "generated (config incl. WAL buffering, 1-2 types, 2-4 contexts, 8-80 ops of STORE / sync / FLUSH / barrier / compaction / clean restart / SIGKILL / armed crash point at a named step of WAL, rotation, flush, index save, WAL cleanup, compaction, hand-over, reclaim); after every crash a new process on the same directories must return every MUST event (acknowledged, visible to a read, WAL drained) exactly once with its payload, COUNT must equal the selection, MAY events at most once; every history ends with an idle SIGKILL and a clean restart. A second exploration (idle-crash-histories) uses idle SIGKILLs only and continues through any number of crash recoveries with stores, auto-flushes and further kills in between (while the post-recovery finding is open: no compaction after a recovery and no COUNT comparison after one; loss, corruption and duplicates stay checked). Non-trivial: a MUST event exists and the crash was at a step boundary or followed a rotation / flush / compaction.",
     );
     report.assumptions = vec![
         "process crash (SIGKILL), not power loss: page cache survives".into(),
@@ -661,6 +679,14 @@ pub fn run(ctx: &Ctx) -> i32 {
     let cases = ctx.tier.pick(96, 1500);
     if let Some(f) = explore(ctx, "crash-histories", || case_strategy(ctx.tier, cl, 3), Explore { cases, max_shrink_iters: ctx.tier.pick(80, 400), lanes: ctx.lanes }, &stats, run_case) {
         report.violations.push(f);
+    }
+    // second exploration: idle kills only, any number of recoveries with stores in between
+    if report.violations.is_empty() {
+        let cl2 = Classes { idle_only: true, ..cl };
+        let cases2 = ctx.tier.pick(72, 1200);
+        if let Some(f) = explore(ctx, "idle-crash-histories", || case_strategy(ctx.tier, cl2, 3), Explore { cases: cases2, max_shrink_iters: ctx.tier.pick(80, 400), lanes: ctx.lanes }, &stats, run_case) {
+            report.violations.push(f);
+        }
     }
     let mut st = stats.into_inner().unwrap();
     let steps_hit: Vec<String> = st.labels.keys().filter(|k| k.starts_with("crash-step:")).cloned().collect();
